@@ -480,6 +480,9 @@ def draw(base_seed, index, prof=None, salt=''):
             faults.append({'at': k, 'kind': rnd.choice(kinds), 'comp': rnd.choice(['one', 'all']),
                            'scope': 'from' if rnd.random() < 0.1 else 'once'})
         faults.sort(key=lambda f: f['at'])
+        for f_ in faults:
+            if f_['kind'] == 'raise':      # exception class as a function of the position: no extra draw, the random stream is unchanged
+                f_['exc'] = ['InjectedFault', 'LinAlgError', 'ValueError', 'OverflowError', 'ZeroDivisionError', 'FloatingPointError'][f_['at'] % 6]
         feats.append('faults')
 
     if has_sets:
@@ -626,6 +629,10 @@ def derive_features(scn):
         f.add('faults')
         for ft in scn['faults']:
             f.add('fault:' + ft['kind'])
+    if scn.get('ifaults'):
+        f.add('ifaults')
+        for ft in scn['ifaults']:
+            f.add('ifault:' + ft.get('kind', 'linalg'))
     if 'general.rounding_error_constant' in up:
         f.add('bug:baseshift')
     if 'slow.max_slow_iters' in up or 'slow.thresh_for_slow' in up:
